@@ -744,3 +744,74 @@ LEVEL_NOTE = LEVEL_NOTE.replace("is proved for fish, PowerShell and elvish (gene
                                 "is proved for fish, PowerShell, elvish and nushell (generator models, tied byte for byte on every run) "
                                 "and checked on the real scripts only (oracle) for zsh.")
 # ---- end nushell generator model ----
+# ---- zsh generator model ----
+# Byte-exact Gallina model of clap_complete/src/aot/shells/zsh.rs with the description texts of the tree
+# (coq/theories/Complete/ZshModel.v; texts = FishModel.cdesc, dbuild).  One more correspondence stream: for every tree with
+# an adversarial text in every slot the scripts of the extracted model must equal the real generator's BYTE FOR BYTE --
+# with the texts as given (`adv`), with innocuous texts of the same emptiness (`inn`) and with every '"' deleted (`nodq`).
+AREAS = AREAS + ["zsh"]
+TRUSTED = TRUSTED + [
+    "zsh generator model: extraction of Complete/ZshModel.v + FishModel.v's text decoration (ExtrOcamlBasic only), driver "
+    "ocaml/zsh_driver.ml (spec reader incl. which spec items make long_help_exists_ true)",
+]
+
+
+def _zsh_model_stream(tier, rng):
+    dist = {}
+    g = TreeGen(rng, dist)
+    cases = []
+    for t in HAND if tier != "quick" else HAND[2::3]:
+        h = hexs(t)
+        cases.append("(script zsh (cmd app (about %s) (arg a1 (short x61) (long lo-ng1) (valias al1) (help %s)) "
+                     "(arg a2 (long lo-ng2) (takes) (global) (pv v1 %s) (pvhide v2 %s) (pv v3) (help %s)) (arg a3 (pos) (help %s)) "
+                     "(arg a6 (pos) (pv w1 %s) (pv w2)) "
+                     "(sub (cmd sub-c1 (alias sal1) (about %s) (arg a4 (short x42) (long_help %s) (help %s)) (arg a7 (pos) (multi) (help %s)) "
+                     "(sub (cmd sub-c2 (about %s) (sub (cmd sub-c3 (about %s) (arg a5 (short x63) (count) (help %s))))))))))"
+                     % ((h,) * 14))
+    for _ in range(100 if tier == "quick" else 2500):
+        g.n = 0
+        g.global_shorts = list("0123456789")
+        cases.append("(script zsh %s)" % g.cmd("app", 0))
+    return Stream("zsh-model", cases, oracle=script_oracle, area="zsh", nontrivial=script_nontrivial,
+                  describe={"what": "script of the extracted zsh generator model == real script, byte for byte, for the "
+                                    "adversarial texts, the innocuous texts and the texts without double quotes",
+                            "slot x character class (texts generated)": dict(sorted(dist.items())),
+                            "trees": len(cases)})
+
+
+_streams_without_zsh_model = streams
+
+
+def streams(tier, rng):
+    return _streams_without_zsh_model(tier, rng) + [_zsh_model_stream(tier, rng)]
+
+
+_classify_without_zsh_model = classify_known
+
+
+def classify_known(stream, case, impl, failure):
+    # the recorded finding C17-zsh-tooltip-dquote is recognised in the stream of the zsh model exactly as in `script`
+    return _classify_without_zsh_model("script" if stream == "zsh-model" else stream, case, impl, failure)
+
+
+RULE = RULE + ("  Stream zsh-model: trees with an adversarial text in every slot on which the scripts of the extracted zsh "
+               "generator model (texts as given, innocuous texts, texts without double quotes) must equal the real scripts "
+               "byte for byte.")
+LEVEL_TEXT = (LEVEL_TEXT +
+              "  zsh (round 2): the per-slot theorems are composed through a byte-exact model of the zsh generator in which "
+              "every text slot is typed by the escape it is written through.  Level 1 (shell words): for every command tree "
+              "whose names, aliases, option spellings, possible values, argument ids and bin names contain no quote, backslash "
+              "or hash byte, every slot of the ENTIRE file is met inside a single-quoted word, the token skeleton and final "
+              "lexer state of the file are the same for ANY two assignments of help / about / possible-value-help texts with "
+              "the same presence shape, and the payload handed to _arguments / _describe is the fixed payload plus the "
+              "level-1 image of each text.  Level 2 (the _arguments spec, brackets and colons): every spec line the model "
+              "writes (one per option spelling, flag spelling, positional, subcommand name or alias) runs through BOTH lexers "
+              "-- each escape_help slot inside quotes and in the description or a field, each positional help in a field -- "
+              "so its level-2 events are those of the fixed text plus the text as literal payload, and two lines with the "
+              "same fixed text have the same level-2 skeleton.  A quote in a NAME and the double quote in a tooltip at the "
+              "eval level (recorded finding) are proved class boundaries.")
+LEVEL_NOTE = ("Trusted: Coq kernel, extraction, OCaml drivers, Rust harness, generators, the shell lexer models (only "
+              "bash can be executed here), the table translator.  Which slot is emitted through which escape "
+              "function is proved for fish, PowerShell, elvish, nushell and zsh (generator models, tied byte for byte on every "
+              "run); zsh level 3 (the eval'd ((...)) action) is oracle-only.")
+# ---- end zsh generator model ----
